@@ -173,6 +173,7 @@ where
                                 target_max_depth,
                                 &max_depth,
                                 symmetry,
+                                &shutdown,
                             );
 
                             // Check whether we have found everything.
@@ -224,6 +225,7 @@ where
         target_max_depth: Option<NonZeroUsize>,
         global_max_depth: &AtomicUsize,
         symmetry: Option<fn(&M::State) -> M::State>,
+        shutdown: &AtomicBool,
     ) {
         let properties = model.properties();
 
@@ -264,6 +266,10 @@ where
             ebits
         };
         'outer: loop {
+            if shutdown.load(Ordering::Relaxed) {
+                // return not break here as we do not know if this is terminal.
+                return;
+            }
             if fingerprint_path.len() > current_max_depth {
                 let _ = global_max_depth.compare_exchange(
                     current_max_depth,
